@@ -29,6 +29,10 @@ PROP = {  # keyword in subject -> (property, what failed)
  "client ends in Done after a query": ("C23", "handshake client stayed in Confirm after receiving QueryReply"),
  "server may send a query reply": ("C23", "handshake server rejected sending QueryReply in Confirm"),
  "can release an acquired": ("C23", "tx-monitor client rejected Release in Acquired; release() could never succeed"),
+ "BanPeer command": ("C27", "IncludePeer(p), BanPeer(p), Housekeeping asked to Connect(p): the command only set the tag, promotion re-promoted the peer"),
+ "already tracked peer": ("C27", "IncludePeer(p), Housekeeping, IncludePeer(p): p in cold and warm at once, per-peer state replaced"),
+ "ResponseNextTx decodes": ("C21", "stream 8106 8101 in one segment failed to decode; 82068200d81840 cut at 2 yielded ResponseNextTx(None) early"),
+ "empty payload for a rejection": ("C21", "segments 8101 | <empty> | 8101 yielded RejectTx(\"\") as second message"),
  "CostModels encodes": ("C06", "conway CostModels{unknown:{3:[1]}} encoded as a0 and decoded with unknown:{}"),
 }
 log = subprocess.run(["git","-C","/repo","log","--format=%h\t%s","--grep=^fix:"],capture_output=True,text=True).stdout.strip().splitlines()
